@@ -11,7 +11,7 @@ func init() {
 	register("C16", propMeta{
 		Explanation: "Decides QED's share of backup/restore, which is plumbing around RocksDB's backup engine: (R1) the version recorded with a backup is the decimal rendering of Version()-1, read and handed on under the node lock, and the store passes that string and its own database to the engine; (R2) a backup identifier travels unchanged and without truncation from the management request to the engine (parsed at 32 bits where it is converted to uint32), restore-by-id uses the given id and directories; " +
 			"(R3) the listing visits every index below the engine's count and copies id, timestamp, size, file count and metadata of the same index; (R4) routing: POST /backup creates, DELETE /backup deletes, GET /backups lists; (R5) a node opened on a restored directory rebuilds its caches exactly from what it reads.",
-		Added:       "Also (R5) recovery-level tiles are persisted whenever cached and at the level the rebuild reads; (R6) a restore does not keep the directory's old write-ahead logs. Third round: (R7) what a backup can capture is a whole number of applied bulks: one atomic store write per bulk (imports the C07.R1/R3 instances) and no write bypassing the write-ahead log, which Backup relies on because it does not flush; (R2) RestoreFromBackup hands db and wal directories over in their own positions.",
+		Added:       "Also (R5) recovery-level tiles are persisted whenever cached and at the level the rebuild reads; (R6) a restore does not keep the directory's old write-ahead logs. Third round: (R7) what a backup can capture is a whole number of applied bulks: one atomic store write per bulk (imports the C07.R1/R3 instances) and no write bypassing the write-ahead log, which Backup relies on because it does not flush; (R2) RestoreFromBackup hands db and wal directories over in their own positions. Fifth round: a successful CreateBackup always passes through the store's Backup.",
 		Assumptions: []string{"RocksDB's backup engine captures a consistent point-in-time image"},
 		Declined:    "that the restored node contains exactly the first v+1 events, continues at v+1 and verifies old snapshots (RocksDB backup semantics + C01/C05 at run time); consistency of a backup taken concurrently with Apply.",
 	}, runC16)
